@@ -44,7 +44,7 @@ def base_schema(rnd, mode):
         return rnd.choice([None] + list(vals))
 
     def leaf(n):
-        return ("leaf", n, rnd.choice(["string", "uint16"]), opt([True, False]), opt([False, True]), opt(["d1", "d2"]), opt(["u0"]))
+        return ("leaf", n, rnd.choice(["string", "uint16"]), opt([True, False]), opt([False, True]), opt(["d1", "d2", ""]), opt(["u0", ""]))
 
     def lst(n):
         return ("list", n, "k", opt([False, True]), opt([2, 0, 1]), opt([5, MAXU64, 9]),
@@ -52,7 +52,8 @@ def base_schema(rnd, mode):
 
     def ll(n):
         nd = 0 if mode == 0 else (2 if mode == 1 else rnd.choice([0, 1, 2]))
-        return ("leaflist", n, "string", opt([True, False]), ["d1", "d2"][:nd], opt([2, 0, 1]), opt([5, MAXU64, 9]))
+        dl = ["d1", "d2"] if mode != 2 else rnd.choice([["d1", "d2"], ["", "d2"], ["d1", ""]])
+        return ("leaflist", n, "string", opt([True, False]), dl[:nd], opt([2, 0, 1]), opt([5, MAXU64, 9]))
 
     def choice(n, sh, cs, cl):
         return ("choice", n, opt([True, False]), opt([False, True]) if mode != 1 else None, opt([cs]),
@@ -166,13 +167,15 @@ def value_for(t, prop, rel, rnd):
         base = c if c is not None else True
         return base if rel == "equal" else (not base)
     if prop == "default":
-        return (c or "d1") if rel == "equal" else "zz"
+        if rel == "equal":
+            return c if c is not None else rnd.choice(["d1", "d1", ""])
+        return rnd.choice(["zz", "zz", ""]) if c != "" else "zz"
     if prop == "min":
         return (c if c is not None else 0) if rel == "equal" else ((c or 0) + 1)
     if prop == "max":
         return (c if c is not None else MAXU64) if rel == "equal" else (7 if c != 7 else 8)
     if prop == "units":
-        return "u0" if rel == "equal" else "u9"
+        return "u0" if rel == "equal" else rnd.choice(["u9", "u9", ""])
     if prop == "type":
         if rel == "equal":
             return c or "string"
@@ -203,6 +206,125 @@ def random_deviate(t, rnd, p_ns=0.15, p_bad=0.04):
     if "max" in d and rnd.random() < 0.03:
         d["max"] = 0
     return d
+
+
+# ------------------------------------------------------------------ typedef defaults (YANG text)
+TYPEDEF_BASE = """module t {
+  namespace "urn:t";
+  prefix t;
+  typedef td1 { type string; default "tdef"; units "tu"; }
+  typedef td2 { type td1; }
+  typedef td3 { type uint8; }
+  typedef td4 { type td3; default "7"; }
+  typedef td5 { type string; default ""; }
+  container c {
+    leaf a { type td1; }
+    leaf b { type td2; default "own"; }
+    leaf c3 { type td3; }
+    leaf d { type td4; }
+    leaf e { type string; default ""; }
+    leaf g { type td1; default ""; }
+    leaf h { type td5; }
+    leaf i { type td2; units "ou"; }
+    leaf-list f { type td1; }
+    leaf-list k { type td4; default "1"; default "2"; }
+  }
+}
+"""
+# (name, own default, default of the type chain, leaf-list)
+TYPEDEF_LEAVES = [("a", None, "tdef", False), ("b", "own", "tdef", False), ("c3", None, None, False), ("d", None, "7", False),
+                  ("e", "", None, False), ("g", "", "tdef", False), ("h", None, "", False), ("i", None, "tdef", False),
+                  ("f", None, "tdef", True), ("k", "1", "7", True)]
+
+
+# ------------------------------------------------------------------ revisions of the deviating module
+def gen_revision_cases(tier, seed):
+    """base + one deviating module in 2-3 revisions with different deviation sets, all loaded, every load order.
+    Expectation by construction: the result is what base + the most recent revision alone yield."""
+    rnd = random.Random(seed * 104729 + 3)
+    out = []
+    n = 25 if tier == "quick" else 300
+    for i in range(n):
+        base, T = base_schema(rnd, rnd.choice([0, 1, 2, 2]))
+        real = [x for x in T if x["kind"] != "missing"]
+        nrev = rnd.choice([2, 2, 3])
+        dates = rnd.sample(["2017-03-01", "2018-12-31", "2019-01-01", "2020-06-15", "2021-02-28"], nrev)
+        shared = rnd.choice(real)
+        revs = []
+        for k, date in enumerate(dates):
+            devs = []
+            for _ in range(rnd.choice([1, 2])):
+                t = rnd.choice(real)
+                if rnd.random() < 0.8:
+                    # always applicable, and visible in the tree
+                    prop = rnd.choice(["cfg", "mand", "default", "units"])
+                    dvs = [deviate("replace", **{prop: {"cfg": rnd.random() < 0.5, "mand": rnd.random() < 0.5,
+                                                        "default": "r%d" % k, "units": "ru%d" % k}[prop]})]
+                else:
+                    # readable statements only: an unreadable one is reported when its text is converted, superseded or not
+                    dvs = []
+                    while len(dvs) < rnd.choice([1, 2]):
+                        d = random_deviate(t, rnd)
+                        if d["kind"] in ("add", "replace", "delete", "not-supported") and d.get("type") != "nope" and d.get("max") != 0:
+                            dvs.append(d)
+                devs.append((tpath(t), dvs))
+            if rnd.random() < 0.5:
+                # the same statement in every revision: applying it twice is an error (add default) or removes twice
+                devs.append((tpath(shared), [rnd.choice([deviate("not-supported"), deviate("add", default="sd"),
+                                                         deviate("add", units="su")])]))
+            m = devmod("dv", devs)
+            m["revision"] = date
+            m["file"] = "dv@%s.yang" % date
+            revs.append(m)
+        newest = max(revs, key=lambda m: m["revision"])
+        orders = list(itertools.permutations(range(len(base) + nrev)))
+        if len(orders) > 8:
+            orders = rnd.sample(orders, 8)
+        for order in orders:
+            out.append(dict(base=base, revs=revs, newest=revs.index(newest), order=list(order), opts="-",
+                            info=dict(g="revisions")))
+    return out
+
+
+def check_revision_cases(res, rcases, report=3):
+    stats = dict(revision_runs=0, revision_ok=0, revision_err=0)
+    lines, exp_lines, exp_idx = [], [], {}
+    for c in rcases:
+        mods = c["base"] + c["revs"]
+        lines.append(go_line([mods[i] for i in c["order"]], c["opts"]))
+        e = go_line(c["base"] + [c["revs"][c["newest"]]], c["opts"])
+        if e not in exp_idx:
+            exp_idx[e] = len(exp_lines)
+            exp_lines.append(e)
+        c["_exp"] = e
+    got = lib.run_go(lines)
+    exp = lib.run_go(exp_lines)
+    nviol = 0
+    for c, g in zip(rcases, got):
+        stats["revision_runs"] += 1
+        st, _, dump = sg.canon_go(g)
+        est, _, edump = sg.canon_go(exp[exp_idx[c["_exp"]]])
+        stats["revision_ok" if st == "ok" else "revision_err"] += 1
+        what = None
+        if st not in ("ok", "err") or est not in ("ok", "err"):
+            what = "revisions: implementation neither processed nor reported: %s / %s" % (g[:200], exp[exp_idx[c["_exp"]]][:200])
+        elif st != est:
+            what = "revisions of a deviating module: all revisions loaded => %s, base + most recent revision alone => %s" % (st, est)
+        elif st == "ok":
+            names = {m["name"] for m in c["base"]}
+            a = {m["name"]: sg.canon_go_node(m["tree"]) for m in dump["runs"][-1]["modules"] if m["name"] in names and not m["sub"]}
+            b = {m["name"]: sg.canon_go_node(m["tree"]) for m in edump["runs"][-1]["modules"] if m["name"] in names and not m["sub"]}
+            if a != b:
+                mn = [k for k in a if a.get(k) != b.get(k)][0]
+                what = "revisions of a deviating module: tree of %s differs from what the most recent revision alone yields: %s vs %s" % (
+                    mn, a[mn][:300], b.get(mn, "")[:300])
+        if what:
+            nviol += 1
+            if nviol <= report:
+                res.violation(what, dict(kind="c08-rev", what=what,
+                                         case=dict(base=c["base"], revs=c["revs"], newest=c["newest"], order=c["order"], opts=c["opts"],
+                                                   info=c["info"])))
+    return stats, nviol
 
 
 # ------------------------------------------------------------------ cases
@@ -236,6 +358,13 @@ def gen_cases(tier, seed):
             cases.append(case(base, [devmod("d1", [(tpath(t), [deviate("bogus", cfg=True)])])], info=dict(g="unknown-kind")))
             cases.append(case(base, [devmod("d1", [(tpath(t), [deviate("replace", type="nope")])])], info=dict(g="bad-type")))
             hist["not_supported"] += 2
+    # --- corpus: D67 (fixed): an empty units argument in a deviate was taken for "no units statement"
+    base, T = base_schema(rnd, 1)
+    for tgt in ("/b:c1/b:gch", "/b:top/b:x", "/b:top/b:l"):
+        cases.append(case(base, [devmod("d1", [(tgt, [deviate("replace", units="u0"), deviate("add", units="")])])],
+                          info=dict(g="corpus-D67")))
+        cases.append(case(base, [devmod("d1", [(tgt, [deviate("add", units="u0")]), (tgt, [deviate("replace", units="")])])],
+                          info=dict(g="corpus-D67")))
     # --- 2-3 deviates on one target, every order
     n_multi = 160 if not thorough else 4000
     for i in range(n_multi):
@@ -245,7 +374,8 @@ def gen_cases(tier, seed):
         dvs = [random_deviate(t, rnd) for _ in range(k)]
         if rnd.random() < 0.35:
             # the order-sensitive classic: delete the default, add another one
-            c = cur_value(t, "default") or "d1"
+            c = cur_value(t, "default")
+            c = c if c is not None else "d1"
             dvs = [deviate("delete", default=c), deviate("add", default="n1")] + dvs[2:]
         opts = "n" if rnd.random() < 0.15 else "-"
         for perm in itertools.permutations(range(len(dvs))):
@@ -296,7 +426,8 @@ def gen_cases(tier, seed):
         d1 = [random_deviate(t1, rnd) for _ in range(rnd.choice([1, 2]))]
         d2 = [random_deviate(t2, rnd) for _ in range(rnd.choice([1, 2]))]
         if t2 is t1 and rnd.random() < 0.5:
-            c = cur_value(t1, "default") or "d1"
+            c = cur_value(t1, "default")
+            c = c if c is not None else "d1"
             d1, d2 = [deviate("delete", default=c)], [deviate("add", default="n1")]
             if rnd.random() < 0.5:
                 d1, d2 = d2, d1
@@ -343,6 +474,25 @@ def gen_cases(tier, seed):
             dm = [devmod("d1", devs[:cut]), devmod("d2", devs[cut:])]
         cases.append(case([b, a], dm, info=dict(g="grouping-leaflist-defaults")))
         hist["grouping_leaflist_defaults"] += 1
+    # --- typedef defaults (text level; the model has no typedefs): the node's OWN default statement decides, never the
+    #     default its type chain carries
+    hist["typedef_defaults"] = 0
+    tbase = dict(mod("t", "t"), text=TYPEDEF_BASE)
+    for leaf, own, tdflt, is_ll in TYPEDEF_LEAVES:
+        vals = sorted({v for v in (own, tdflt, "zz", "") if v is not None})
+        for kind in ("add", "replace", "delete"):
+            for v in vals:
+                dvss = [[deviate(kind, default=v)]]
+                if kind == "delete":
+                    dvss.append([deviate("delete", default=v), deviate("add", default="n1")])
+                    dvss.append([deviate("delete", default=v), deviate("add", default=tdflt if tdflt is not None else "n2")])
+                if kind == "add":
+                    dvss.append([deviate("add", default=v), deviate("add", default="n3")])
+                    dvss.append([deviate("add", default=v), deviate("add", units="")])
+                for dvs in dvss:
+                    dm = mod("d1", "d1", imports=[("t", "t")], deviations=[("/t:c/t:%s" % leaf, dvs)])
+                    cases.append(case([tbase], [dm], info=dict(g="typedef-defaults", nomodel=True)))
+                    hist["typedef_defaults"] += 1
     # --- the text layout of every case that has two or more deviate statements in one deviation is varied
     hist["layout_varied"] = 0
     for c in cases:
@@ -382,15 +532,29 @@ def render_module_layout(m, rnd):
     return out + "}\n"
 
 
-def go_case_c(c):
-    """process line for the implementation; the texts of the deviating modules get the case's layout"""
-    schema = full_schema(c)
-    lay = c["info"].get("layout")
-    toks = ["process", c["opts"], ",".join(["L%d" % i for i in range(len(schema))] + ["P"]), str(len(schema))]
-    for i, m in enumerate(schema):
-        text = render_module_layout(m, random.Random(lay * 1009 + i) if lay is not None else None)
-        toks += [sg.hx(m["name"] + ".yang"), sg.hx(text)]
+def add_revision(text, rev):
+    """insert a revision statement after the header (before the first body statement)"""
+    lines = text.split("\n")
+    i = 0
+    while i < len(lines) and (i == 0 or lines[i].lstrip().startswith(("namespace", "prefix", "import", "include", "belongs-to"))):
+        i += 1
+    return "\n".join(lines[:i] + ["  revision %s;" % rev] + lines[i:])
+
+
+def go_line(mods, opts, lay=None):
+    """process line for the implementation.  A module dict may carry its YANG text ("text"), a revision date
+    ("revision") and a file name ("file"); the texts of modules with deviations get the layout [lay]"""
+    toks = ["process", opts, ",".join(["L%d" % i for i in range(len(mods))] + ["P"]), str(len(mods))]
+    for i, m in enumerate(mods):
+        text = m["text"] if "text" in m else render_module_layout(m, random.Random(lay * 1009 + i) if lay is not None else None)
+        if m.get("revision"):
+            text = add_revision(text, m["revision"])
+        toks += [sg.hx(m.get("file", m["name"] + ".yang")), sg.hx(text)]
     return " ".join(toks)
+
+
+def go_case_c(c):
+    return go_line(full_schema(c), c["opts"], c["info"].get("layout"))
 
 
 # ------------------------------------------------------------------ running
@@ -597,16 +761,19 @@ def check_cases(res, cases, report=3):
                  out_of_scope=0, spec_err=0, spec_ok=0, skipped=0)
     # (i) model vs implementation, deviated run
     go_lines = [go_case_c(c) for c in cases]
-    ml_lines = [sg.model_case(full_schema(c), opts=c["opts"]) for c in cases]
+    with_model = [i for i, c in enumerate(cases) if not c["info"].get("nomodel")]
+    ml_lines = [sg.model_case(full_schema(cases[i]), opts=cases[i]["opts"]) for i in with_model]
     base_lines, base_idx = [], {}
     for c in cases:
-        l = sg.go_case(base_only(c), opts=c["opts"])
+        l = go_line(base_only(c), c["opts"])
         if l not in base_idx:
             base_idx[l] = len(base_lines)
             base_lines.append(l)
         c["_base_line"] = l
     go = lib.run_go(go_lines)
-    ml = lib.run_ml(ml_lines)
+    ml = [None] * len(cases)
+    for i, o in zip(with_model, lib.run_ml(ml_lines)):
+        ml[i] = o
     gb = lib.run_go(base_lines)
     nviol = 0
     wcache = {}
@@ -625,12 +792,12 @@ def check_cases(res, cases, report=3):
         c["_st"], c["_dump"] = st, dump
         if st == "ok":
             stats["go_ok"] += 1
-            if canon != m:
+            if m is not None and canon != m:
                 viol("model and implementation disagree on a deviated module set (impl ok): impl=%s model=%s" % (canon[:300], m[:300]), c,
                      impl=g[:2000], model=m[:2000])
         elif st in ("err", "loaderr"):
             stats["go_err"] += 1
-            if m != "err":
+            if m is not None and m != "err":
                 viol("model and implementation disagree: implementation reports (%s), model: %s" % (st, m[:300]), c, impl=g[:2000], model=m[:2000])
         else:
             viol("implementation neither processed nor reported: %s" % g[:300], c, impl=g[:2000])
@@ -785,6 +952,11 @@ def frame_check(c, bdump, ddump, stats):
 def run(res, tier, seed, proof):
     cases, hist = gen_cases(tier, seed)
     stats, nviol = check_cases(res, cases)
+    rcases = gen_revision_cases(tier, seed)
+    rstats, rviol = check_revision_cases(res, rcases)
+    stats.update(rstats)
+    nviol += rviol
+    hist["revisions"] = len(rcases)
     groups = {}
     for c in cases:
         g = c["info"].get("g")
@@ -792,7 +964,7 @@ def run(res, tier, seed, proof):
     ex = [c for c in cases if c.get("_st") == "ok" and c["info"].get("g") == "multi"][:1] + \
          [c for c in cases if c.get("_st") == "err"][:1] + [c for c in cases if c["info"].get("g") == "random-schema"][:1]
     cov = dict(
-        evaluations=len(cases) * 2 + stats["spec_evals"],
+        evaluations=len(cases) * 2 + stats["spec_evals"] + 2 * len(rcases),
         distinct_nontrivial=len({json.dumps(strip(c), sort_keys=True) for c in cases}),
         rule="generated base (every target kind: leaf, leaf-list, list, container, choice, explicit and implicit case, anydata, "
              "rpc, explicit and implicit input/output, notification leaf, nodes of a grouping used twice, augmented nodes) in "
@@ -802,7 +974,10 @@ def run(res, tier, seed, proof):
              "target/ancestor/descendant combinations and missing targets; two deviating modules; schema_gen.random_schema "
              "with p_dev=1; groupings whose leaf-lists have 0-8 defaults used 2-3 times in the defining and once in another module, "
              "add/replace default on one, two or all instances; the text of every deviation with two or more deviates is laid "
-             "out raggedly (random and decreasing indentation, several deviates per line, deviate on the deviation line).  Each case: model-vs-implementation, frame against the run without the deviating modules, "
+             "out raggedly (random and decreasing indentation, several deviates per line, deviate on the deviation line); empty-string "
+             "defaults and units in sources and deviates; a text-level family of leaves typed by typedef chains with and without "
+             "defaults (implementation + reference only); a family with the deviating module in 2-3 revisions, all loaded in "
+             "every order, compared with base + most recent revision alone.  Each case: model-vs-implementation, frame against the run without the deviating modules, "
              "extracted reference applied to the undeviated dump",
         exhaustive=False, mismatches=nviol,
         distribution=dict(hist, groups=groups, **stats),
@@ -822,6 +997,25 @@ def run(res, tier, seed, proof):
 
 def replay(rep, res):
     c0 = rep["case"]
+    if rep.get("kind") == "c08-rev":
+        kinds = ("leaf", "leaflist", "container", "list", "choice", "case", "any", "uses", "grouping", "rpc", "notification")
+
+        def fx(x):
+            if isinstance(x, list) and x and isinstance(x[0], str) and x[0] in kinds:
+                return tuple(fx(y) for y in x)
+            return [fx(y) for y in x] if isinstance(x, list) else x
+        for m in c0["base"] + c0["revs"]:
+            m["body"] = [fx(n) for n in m["body"]]
+            m["augments"] = [(p, [fx(n) for n in b]) for p, b in m["augments"]]
+            m["imports"] = [tuple(i) for i in m["imports"]]
+            m["deviations"] = [(p, d) for p, d in m["deviations"]]
+        stats, nviol = check_revision_cases(res, [c0], report=10)
+        for m in c0["revs"]:
+            print(add_revision(sg.render_module(m), m["revision"]))
+        print("load order:", c0["order"], " violations:", nviol)
+        for what, r, _ in res.violations:
+            print("  ", what[:600])
+        return 1 if nviol else 0
     sc = c0["schema"]
     devnames = set(c0.get("dev") or [])
     if c0["info"].get("g") == "random-schema":
@@ -843,8 +1037,9 @@ def replay(rep, res):
         m["augments"] = [(p, [fix(n) for n in b]) for p, b in m["augments"]]
         m["imports"] = [tuple(i) for i in m["imports"]]
         m["deviations"] = [(p, d) for p, d in m["deviations"]]
-    for m in full_schema(c):
-        print(sg.render_module(m))
+    for i, m in enumerate(full_schema(c)):
+        lay = c["info"].get("layout")
+        print(m["text"] if "text" in m else render_module_layout(m, random.Random(lay * 1009 + i) if lay is not None else None))
     stats, nviol = check_cases(res, [c], report=10)
     print("implementation:", c.get("_st"), " violations:", nviol)
     for what, r, _ in res.violations:
